@@ -27,6 +27,7 @@ EXPLANATION = (
 EXPLANATION += ' Added after the seeded-change rounds: ' + "D6 also: a function that enqueues its node by an RMW on q_tail and then waits for the node's grant flag has cleared that flag on every path before the RMW."
 EXPLANATION += ' Added in the third session (round-3 seeds and the findings they led to): ' + "D7: the sleeper table of tbb::mutex / rw_mutex - every wait-set scan covers all nodes, waiter and notifiers select the monitor from the same address, every notifier's predicate compares the sleeper's address."
 EXPLANATION += ' Added in the fourth round of seeded changes: ' + 'D1 also (speculative_spin_rw_mutex): write_flag is raised only while the underlying write lock is held (after lock(), after upgrade() returned, on the success edge of try_lock()), every acquisition raises it on all paths, it is lowered only in front of unlock()/downgrade() and not touched afterwards.'
+EXPLANATION += ' Added in the fifth round: ' + 'D7 also: the rw_mutex downgrade rule of C02-D4 (shared).'
 ASSUMPTIONS = ['C++11 memory model lower bounds', 'witnesses compiled with -fno-access-control to read private constants']
 ND = ['mutual exclusion over all interleavings of the queuing_rw_mutex state machine', 'FIFO fairness as a history property',
       'absence of lost hand-off beyond the checked orders']
